@@ -4,7 +4,7 @@
    passwd.go / group.go on this run (Generated/FieldLetters.v). *)
 From Apko Require Import Base.Prelude Base.C16Lib Model.Formats Spec.FormatsSpec
   Proofs.FormatsProofs Proofs.FormatsPasswd Proofs.FormatsPath Proofs.FormatsSort Proofs.FormatsInstalled
-  Proofs.FormatsFixpoint Proofs.FormatsFit Proofs.FormatsFields Proofs.FormatsReach Generated.FieldLetters.
+  Proofs.FormatsFixpoint Proofs.FormatsFit Proofs.FormatsFields Proofs.FormatsReach Proofs.FormatsReaders Generated.FieldLetters.
 
 (* the APKINDEX template in the source is the one the theorems are about *)
 Theorem c16_index_template_pinned :
@@ -494,3 +494,51 @@ Theorem c16_reachable_fuel :
   (forall hs c, c <> "." -> (Reach hs c <-> reachable (S (String.length c)) hs c = true)).
 Proof. exact (conj reachable_fuel_enough reach_iff_reachable). Qed.
 Print Assumptions c16_reachable_fuel.
+
+(* ---- the readers' switch tables -----------------------------------------------------------
+   The case letters of ParsePackageIndex and ParseInstalled, the fields each case
+   assigns and the line guards, as goextract read them on this run, are the ones
+   the model's pkg_field / inst_field / idx_split / inst_split implement (a new
+   case letter, or a case assigning another field, breaks this theorem). *)
+Theorem c16_reader_cases_pinned :
+  index_reader_cases = expected_pkg_cases false /\ installed_reader_cases = expected_pkg_cases true ++ expected_file_cases /\
+  index_line_guards = ["len(line) == 0"; "len(line) < 2"; "line[1:2] != "":"""] /\
+  installed_line_guards = ["line == """""; "len(line) < 2 || line[1:2] != "":"""].
+Proof. exact reader_cases_pinned. Qed.
+Print Assumptions c16_reader_cases_pinned.
+
+(* For EVERY token and value: a letter outside the generated switch table is
+   ignored (the record / the whole reader state is unchanged), a letter inside it
+   never is (the line sets a field or is an error). *)
+Theorem c16_reader_unknown_letters :
+  forall (dec : string -> option (list N)) tok val,
+  (forall p, known_letter index_reader_cases tok = false -> pkg_field dec false tok val p = Ok None) /\
+  (forall p, known_letter index_reader_cases tok = true -> pkg_field dec false tok val p <> Ok None) /\
+  (forall st, known_letter installed_reader_cases tok = false -> inst_field dec tok val st = Ok st).
+Proof.
+  intros dec tok val. split; [intro p; exact (proj1 (index_reader_letters dec tok val p))|].
+  split; [intro p; exact (proj2 (index_reader_letters dec tok val p))|intro st; exact (installed_reader_unknown dec tok val st)].
+Qed.
+Print Assumptions c16_reader_unknown_letters.
+
+(* A repeated field: the later line wins whatever the earlier one had set (both
+   readers, every package letter) -- except C:, where a later value without the
+   "Q1" prefix is skipped and the earlier checksum stays. *)
+Theorem c16_reader_repeated_field :
+  forall (dec : string -> option (list N)) with_r,
+  (forall tok v1 v2 p p1, tok <> "C" -> pkg_field dec with_r tok v1 p = Ok (Some p1) ->
+     pkg_field dec with_r tok v2 p1 = pkg_field dec with_r tok v2 p) /\
+  (forall v p, has_prefix "Q1" v = false -> pkg_field dec with_r "C" v p = Ok (Some p)).
+Proof. intros dec with_r. split; [exact (pkg_field_overwrites dec with_r)|exact (pkg_field_C_unprefixed dec with_r)]. Qed.
+Print Assumptions c16_reader_repeated_field.
+
+(* passwd / group: a line is an error unless it has exactly the generated number of
+   colon-separated parts -- i.e. exactly 6 (3) colons after TrimSpace: an extra
+   colon anywhere (a trailing field, a colon inside a field) or a missing one *)
+Theorem c16_passwd_part_counts :
+  (forall line, List.length (split_on ":" (trim_space line)) <> passwd_part_count -> parse_user line = Err) /\
+  (forall line, List.length (split_on ":" (trim_space line)) <> group_part_count -> parse_group line = Err) /\
+  (forall line, List.length (filter (Ascii.eqb ":") (list_ascii_of_string (trim_space line))) <> 6%nat -> parse_user line = Err) /\
+  (forall line, List.length (filter (Ascii.eqb ":") (list_ascii_of_string (trim_space line))) <> 3%nat -> parse_group line = Err).
+Proof. exact (conj parse_user_parts (conj parse_group_parts (conj parse_user_colons parse_group_colons))). Qed.
+Print Assumptions c16_passwd_part_counts.
